@@ -16,7 +16,8 @@ LIFE = {
                 crashes=(0, 1, 1), wf=1, rf=0, trf=1),
     "C03": dict(models=["base_conf", "base_amtless", "base_zero", "restart"], tmodels=["t_restart3", "base_tot"], fams=["base", "amtless", "overlap", "other"],
                 crashes=(0, 1), wf=0, rf=0, extra=["class"]),
-    "C04": dict(models=["base_exp"], tmodels=["base_conf", "overlap"], fams=["base", "overlap"], crashes=(0,), wf=0, rf=0, heights=True),
+    "C04": dict(models=["base_exp"], tmodels=["base_conf", "overlap"], fams=["base", "overlap"], crashes=(0,), wf=0, rf=0, heights=True,
+                extra=["late_replay"]),
     "C05": dict(focus=["Overlap", "Live"], models=["overlap", "overlapc", "restart"], tmodels=["overlap3", "t_overlap2", "t_restart3"], fams=["overlap", "overlap3", "base"],
                 crashes=(0, 1, 1), wf=0, rf=0, trf=1, extra=["e2e_lostreply", "write_fault", "late_replay"]),
     "C06": dict(live=["live"], models=["base_conf", "faults"], tmodels=["base_exp", "base_tot", "t_faults2"], fams=["base", "amtless", "other", "overlap", "twohash"],
